@@ -107,3 +107,9 @@ func Native() bool             { return false }
 
 // SnapshotAll lists every node of the file system, paths relative to the common base of all roots.
 func SnapshotAll() []Entry { return Snapshot("") }
+
+// SetOwnerMode changes permission bits and owner of an existing node.
+func SetOwnerMode(p string, perm, uid, gid uint32) {
+	n := nodes[p]
+	n.Perm, n.Uid, n.Gid = perm&07777, uid, gid
+}
